@@ -22,6 +22,8 @@ type histCfg struct {
 	CtxKinds  []string // context kinds offered to CreateScope
 	NoProvOps bool     // do not resolve directly on the provider
 	Final     []Op     // appended to every history (not counted in depth)
+	AlphaFn   func(h []Op) []Op // custom alphabet (replaces the generic one)
+	AutoGet   *Op      // issued on every freshly created scope (not counted in depth)
 	Oracle    func(e *Env, s *vsched.Sched, h []Op) []Finding
 }
 
@@ -35,6 +37,9 @@ type histCase struct {
 // s1, s2, … in creation order; creation is offered while fewer than MaxScopes
 // exist).
 func (c *histCfg) alphabet(h []Op) []Op {
+	if c.AlphaFn != nil {
+		return c.AlphaFn(h)
+	}
 	var names []string
 	hasCancel := map[string]bool{}
 	for _, o := range h {
@@ -97,6 +102,11 @@ func (c *histCfg) runOne(h []Op) (*Env, *vsched.Sched) {
 			e.Do(op)
 			if op.Kind == "cancel" {
 				e.Do(Op{Kind: "settle"})
+			}
+			if op.Kind == "scope" && c.AutoGet != nil {
+				g := *c.AutoGet
+				g.Scope = op.Bind
+				e.Do(g)
 			}
 		}
 		for _, op := range c.Final {
